@@ -51,8 +51,10 @@ def krylov_cases(draw, tier):
     big = tier == "thorough"
     nmax = 300 if big else 60
     # dimension: small ones often (full-space exit, block growth with block 2..5), a tail of large ones
-    n = draw(st.one_of(st.integers(1, 12), st.integers(1, 60), st.integers(1, nmax)))
-    block = draw(st.one_of(st.integers(2, 6), st.integers(2, 50), st.just(50)))
+    ncls = draw(st.sampled_from(["mid", "small", "large", "mid", "small", "tiny"]))
+    lo, hi = {"tiny": (1, 3), "small": (4, 12), "mid": (13, 40), "large": (41, nmax)}[ncls]
+    n = draw(st.integers(0, hi - lo).map(lambda k: hi - k))  # minimal draw = upper end of the class
+    block = draw(st.sampled_from([3, 2, 5, 10, 50, 30, 7, 4, 20, 13, 50]))
     spectrum = draw(st.sampled_from(SPECTRA + ["generic", "few", "clustered"]))
     start = draw(st.sampled_from(STARTS + ["generic", "invariant"]))
     cplx = draw(st.booleans())
@@ -94,11 +96,15 @@ def label_specs(draw, max_side=12, allow_nomatch=True):
     mode = draw(st.sampled_from(modes))
     qntot = draw(_qvec(q, -1, 3))
     if layout == "flat":
-        pool = draw(st.lists(_qvec(q), min_size=1, max_size=4))
-        nl = draw(st.one_of(st.integers(1, max_side), st.integers(1, 4)))
-        nr = draw(st.one_of(st.integers(1, max_side), st.integers(1, 4)))
+        npool = draw(st.sampled_from([3, 2, 4, 1, 2]))
+        pool = draw(st.lists(_qvec(q, -2, 1), min_size=npool, max_size=npool))
+        if draw(st.sampled_from([True, True, False])):
+            pool = [[v[0] + k % 3] + [x + k // 3 for x in v[1:]] for k, v in enumerate(pool)]  # mostly distinct labels
+        sizes = [s for s in [4, 2, 6, 3, 1, 5, 9, 7, 8, 12, 16, 24] if s <= max_side]
+        nl = draw(st.sampled_from(sizes))
+        nr = draw(st.sampled_from(sizes))
         lidx = draw(st.lists(st.integers(0, len(pool) - 1), min_size=nl, max_size=nl))
-        left = [list(pool[i]) for i in lidx]
+        left = [list(pool[(i + k) % len(pool)]) for k, i in enumerate(lidx)]  # all-zero draws cycle through the pool
         right = []
         for k in range(nr):
             if mode == "mixed":
@@ -108,7 +114,7 @@ def label_specs(draw, max_side=12, allow_nomatch=True):
             if matched:
                 # partner of a label that is actually present on the left (index into the left list)
                 if draw(st.integers(0, 4)) < 4 or not allow_nomatch:
-                    p = left[draw(st.integers(0, nl - 1))]
+                    p = left[(k + draw(st.integers(0, nl - 1))) % nl]
                 else:
                     p = pool[draw(st.integers(0, len(pool) - 1))]
                 lab = [t - a for t, a in zip(qntot, p)]
@@ -121,10 +127,10 @@ def label_specs(draw, max_side=12, allow_nomatch=True):
         R = [right]
     else:
         # chain-like: left = bond labels (+) physical labels, right = [physical (+)] (qntot - bond labels)
-        la = draw(st.integers(1, 4))
-        sa = draw(st.integers(1, 3))
-        lb = draw(st.integers(1, 4))
-        sb = draw(st.integers(0, 3))
+        la = draw(st.sampled_from([2, 3, 1, 4]))
+        sa = draw(st.sampled_from([2, 1, 3]))
+        lb = draw(st.sampled_from([2, 3, 1, 4]))
+        sb = draw(st.sampled_from([0, 2, 1, 3]))
         ql = draw(st.lists(_qvec(q, 0, 2), min_size=la, max_size=la))
         sig = draw(st.lists(_qvec(q, 0, 1), min_size=sa, max_size=sa))
         sig2 = draw(st.lists(_qvec(q, 0, 1), min_size=sb, max_size=sb)) if sb else None
@@ -134,8 +140,8 @@ def label_specs(draw, max_side=12, allow_nomatch=True):
                 tgt = draw(_qvec(q, 0, 3))
             else:
                 # a left sum that really occurs (minus a physical label of the right part): guaranteed partner
-                a = ql[draw(st.integers(0, la - 1))]
-                b = sig[draw(st.integers(0, sa - 1))]
+                a = ql[(k + draw(st.integers(0, la - 1))) % la]
+                b = sig[(k + draw(st.integers(0, sa - 1))) % sa]
                 tgt = [x + y for x, y in zip(a, b)]
                 if mode == "nomatch":
                     tgt = [x - 9 for x in tgt]
@@ -328,9 +334,10 @@ class C18(Prop):
     ]
 
     known_matchers = {
-        # expm_krylov allocates the Lanczos basis with the dtype of the start vector: a real start vector with a complex
-        # Hermitian A silently drops the imaginary parts (numpy ComplexWarning) and returns a wrong vector
-        "F17": lambda spec, sig, msg: sig.startswith("krylov.real_start_complex_A.") and spec.get("kind") == "krylov"
+        # F18 (repaired in /repo by c84bc08, kept as a separate signature so that a regression is named precisely):
+        # expm_krylov allocated the Lanczos basis with the dtype of the start vector; a real start vector with a complex
+        # Hermitian A silently dropped the imaginary parts (numpy ComplexWarning) and returned a wrong vector
+        "F18": lambda spec, sig, msg: sig.startswith("krylov.real_start_complex_A.") and spec.get("kind") == "krylov"
         and spec.get("cplx") and spec.get("v_real"),
     }
 
@@ -497,6 +504,8 @@ class C18(Prop):
             r.classes.append("krylov.dim>2*block")
         if rsc:
             r.classes.append("krylov.real_start_complex_A")
+            if n > block:
+                r.classes.append("krylov.real_start_complex_A.dim>block")
         r.nontrivial = bool(n > block or info["near"] or info["degenerate"] or spec["spectrum"] in ("rankdef", "clustered", "few", "zero"))
         calls = [0]
 
@@ -575,8 +584,7 @@ class C18(Prop):
             r.classes.append("svd.one_sided_left")
         if one_sided_right:
             r.classes.append("svd.one_sided_right")
-        if len(matched) >= 2:
-            r.classes.append("svd.matched>=2")
+        r.classes.append(f"svd.matched_sectors={min(len(matched), 4)}{'+' if len(matched) >= 4 else ''}")
         if not matched:
             r.classes.append("svd.no_matched_sector")
         if unbalanced and full and opt and not QR:
